@@ -21,22 +21,23 @@ import (
 )
 
 type Job struct {
-	Id        string  `json:"id"`
-	Text      string  `json:"text"`
-	Mode      string  `json:"mode"` // async | sync | np
-	Typecheck bool    `json:"typecheck"`
-	Execute   bool    `json:"execute"`
-	Monitor   bool    `json:"monitor"`
-	Procs     int     `json:"gomaxprocs"`
-	Seed      int64   `json:"seed"`
-	Yield     float64 `json:"yield"`
-	Sched     [][]int `json:"sched"`
-	Trace     bool    `json:"trace"`
-	Dump      bool    `json:"dump"`
-	GraceMs   int     `json:"grace_ms"`
-	PostCalls bool    `json:"post_calls"`
-	MaxMs     int     `json:"max_ms"`     // give up on a run that has not reached quiescence after this long (0 = 8000)
-	MaxEvents int     `json:"max_events"` // stop recording after this many events (0 = 30000)
+	Id         string  `json:"id"`
+	Text       string  `json:"text"`
+	Mode       string  `json:"mode"` // async | sync | np
+	Typecheck  bool    `json:"typecheck"`
+	Execute    bool    `json:"execute"`
+	Monitor    bool    `json:"monitor"`
+	Subscriber bool    `json:"subscriber"` // attach a subscriber (as the web front end does) whose consumers serialise every snapshot the monitor publishes
+	Procs      int     `json:"gomaxprocs"`
+	Seed       int64   `json:"seed"`
+	Yield      float64 `json:"yield"`
+	Sched      [][]int `json:"sched"`
+	Trace      bool    `json:"trace"`
+	Dump       bool    `json:"dump"`
+	GraceMs    int     `json:"grace_ms"`
+	PostCalls  bool    `json:"post_calls"`
+	MaxMs      int     `json:"max_ms"`     // give up on a run that has not reached quiescence after this long (0 = 8000)
+	MaxEvents  int     `json:"max_events"` // stop recording after this many events (0 = 30000)
 }
 
 type Result struct {
@@ -62,6 +63,7 @@ type Result struct {
 	Timeout   bool        `json:"timeout"`  // the run did not reach quiescence within max_ms (non-terminating or far too slow)
 	Overflow  bool        `json:"overflow"` // more events than max_events: recording stopped
 	TcEvents  []string    `json:"tc_events,omitempty"`
+	SubBytes  int         `json:"sub_bytes,omitempty"` // bytes of snapshots the subscriber serialised
 }
 
 func version(mode string) process.Execution_Version {
@@ -74,28 +76,62 @@ func version(mode string) process.Execution_Version {
 	return process.NORMAL_ASYNC
 }
 
-// captureStdout redirects os.Stdout while f runs and returns what was written.
+// Program output. os.Stdout is replaced ONCE, before any process goroutine exists, by a pipe that a reader goroutine drains into a
+// locked buffer; it is never swapped back. (Swapping os.Stdout around every run would be an unsynchronised write by the driver
+// racing with the prints of process goroutines that are still alive after the interpreter declared quiescence.)
+var (
+	outMu   sync.Mutex
+	outBuf  strings.Builder
+	outOnce sync.Once
+	outW    *os.File
+)
+
+func redirectStdout() {
+	outOnce.Do(func() {
+		r, w, err := os.Pipe()
+		if err != nil {
+			return
+		}
+		outW = w
+		os.Stdout = w
+		go func() {
+			buf := make([]byte, 1<<16)
+			for {
+				n, err := r.Read(buf)
+				if n > 0 {
+					outMu.Lock()
+					outBuf.Write(buf[:n])
+					outMu.Unlock()
+				}
+				if err != nil {
+					return
+				}
+			}
+		}()
+	})
+}
+
+// captureStdout returns what was printed while f ran (plus whatever the pipe delivers within a short settling time).
 func captureStdout(f func()) string {
-	old := os.Stdout
-	r, w, err := os.Pipe()
-	if err != nil {
-		f()
-		return ""
-	}
-	os.Stdout = w
-	var buf strings.Builder
-	var wg sync.WaitGroup
-	wg.Add(1)
-	go func() {
-		defer wg.Done()
-		io.Copy(&buf, r)
-	}()
+	redirectStdout()
+	outMu.Lock()
+	start := outBuf.Len()
+	outMu.Unlock()
 	f()
-	os.Stdout = old
-	w.Close()
-	wg.Wait()
-	r.Close()
-	return buf.String()
+	last := -1
+	for i := 0; i < 50; i++ { // wait until the pipe is drained: no growth for 2 ms
+		time.Sleep(2 * time.Millisecond)
+		outMu.Lock()
+		n := outBuf.Len()
+		outMu.Unlock()
+		if n == last {
+			break
+		}
+		last = n
+	}
+	outMu.Lock()
+	defer outMu.Unlock()
+	return outBuf.String()[start:]
 }
 
 func runJob(j Job) (res Result) {
@@ -166,12 +202,44 @@ func runJob(j Job) (res Result) {
 		}
 	}()
 	setMaxEvents(t, j.MaxEvents)
+	var sub *process.SubscriberInfo
+	subStop := make(chan struct{})
+	var subWg sync.WaitGroup
+	if j.Monitor && j.Subscriber {
+		sub = process.NewSubscriberInfo()
+		subWg.Add(2)
+		go func() {
+			defer subWg.Done()
+			for {
+				select {
+				case ps := <-sub.ProcessesSubscriberChan:
+					b, _ := json.Marshal(ps)
+					res.SubBytes += len(b)
+				case <-subStop:
+					return
+				}
+			}
+		}()
+		go func() {
+			defer subWg.Done()
+			n := 0
+			for {
+				select {
+				case rs := <-sub.RulesSubscriberChan:
+					b, _ := json.Marshal(rs)
+					n += len(b)
+				case <-subStop:
+					return
+				}
+			}
+		}()
+	}
 	out := captureStdout(func() {
 		if t == nil {
-			process.InitializeProcesses(procs, nil, nil, re)
+			process.InitializeProcesses(procs, nil, sub, re)
 			return
 		}
-		res.ReplayDiv, res.ReplayWhy = execTraced(t, re, procs, j.Sched)
+		res.ReplayDiv, res.ReplayWhy = execTraced(t, re, procs, j.Sched, sub)
 	})
 	close(finished)
 	res.Ran = true
@@ -181,6 +249,8 @@ func runJob(j Job) (res Result) {
 			re.StopMonitor()
 		}()
 	}
+	close(subStop)
+	subWg.Wait()
 	if j.PostCalls {
 		_ = re.TimeTaken()
 	}
@@ -202,6 +272,7 @@ func runJob(j Job) (res Result) {
 var resultSink = func(Result) {}
 
 func main() {
+	redirectStdout()
 	in := flag.String("in", "-", "jobs (ndjson); - = stdin")
 	outp := flag.String("out", "-", "results (ndjson); - = stdout is NOT allowed when executing (program prints go there)")
 	flag.Parse()
